@@ -4,6 +4,7 @@ import Csproto.Bridge.WireFuncs
 import Csproto.Bridge.WireFuncs2
 import Csproto.Bridge.DecoderFuncs
 import Csproto.Bridge.SkipFuncs
+import Csproto.Props.C03Source
 /- axiom audit for C03 -/
 open Csproto
 #print axioms C03.step_safe
@@ -51,3 +52,16 @@ open Csproto
 #print axioms Csproto.Bridge.SkipFuncs.prefix_eval
 #print axioms Csproto.Bridge.SkipFuncs.check_eval
 #print axioms Csproto.Bridge.SkipFuncs.len_eval
+
+-- C03 stated about the translated source (returns: no panic, no divergence; buffer untouched; failed call leaves the cursor): Props/C03Source.lean
+#print axioms Csproto.C03.Source.DecodeTag_safe
+#print axioms Csproto.C03.Source.DecodeUInt64_safe
+#print axioms Csproto.C03.Source.DecodeInt64_safe
+#print axioms Csproto.C03.Source.DecodeUInt32_safe
+#print axioms Csproto.C03.Source.DecodeInt32_safe
+#print axioms Csproto.C03.Source.DecodeSInt32_safe
+#print axioms Csproto.C03.Source.DecodeSInt64_safe
+#print axioms Csproto.C03.Source.DecodeFixed32_safe
+#print axioms Csproto.C03.Source.DecodeFixed64_safe
+#print axioms Csproto.C03.Source.DecodeBytes_safe
+#print axioms Csproto.C03.Source.Skip_safe
